@@ -273,7 +273,8 @@ def step(root, scratch, src_model, lab, dst_model, src_ans, seed=0, who=None, op
                 r.close()
             if ak.get(q) == an.get(q):
                 resp.append(f"{k}:{cls[k]}")
-        return "+".join(resp) or "acc=" + ",".join(f"{k}:{v}" for k, v in sorted(cls.items()))
+        rel = {k: v for k, v in cls.items() if k == "pref"} if q in ("ref", "refs") else cls    # refs only depend on packed-refs
+        return "+".join(resp) or "acc=" + ",".join(f"{k}:{v}" for k, v in sorted(rel.items()))
 
     def is_exc(v):
         return isinstance(v, str) and v.startswith("exc:")
